@@ -5,7 +5,11 @@ impl cbor_event::se::Serialize for HeaderBody {
         &self,
         serializer: &'se mut Serializer<W>,
     ) -> cbor_event::Result<&'se mut Serializer<W>> {
-        serializer.write_array(cbor_event::Len::Len(15))?;
+        let len = match &self.leader_cert {
+            HeaderLeaderCertEnum::NonceAndLeader(_, _) => 15,
+            HeaderLeaderCertEnum::VrfResult(_) => 14,
+        };
+        serializer.write_array(cbor_event::Len::Len(len))?;
         self.block_number.serialize(serializer)?;
         self.slot.serialize(serializer)?;
         match &self.prev_hash {
